@@ -4,6 +4,7 @@ from hypothesis import strategies as st
 from vf import gens
 from vf.runner import hyp_run, run_cases, guard, fail, exc_failure
 
+THOROUGH_SCALE = 8      # multiplies every generated-case budget of the thorough tier
 RULE = ("UBI = inv(U.B(cell)) for 7 cell families, right- and left-handed, optionally perturbed by 0.2% (poorly "
         "matching) x peak lists of n in {0,1,2,3,...,1e5} built as UB.(h+d) with integer |h| up to 20 / 500 / 1000 "
         "and |d_i| < 0.5 at noise levels 1e-6..0.45 x tol in (0,0.5] x label arrays x degenerate selections (empty, "
